@@ -69,6 +69,17 @@ class SymC:
         return f"SymC({self.re}, {self.im})"
 
 
+CURRENT_CTX = [None]  # set by the interpreter: needed to create cos/sin terms of phase factors
+
+
+def phase(arg):
+    """exp(i*arg) as a complex value that remembers its argument (products of phases add their arguments exactly)."""
+    ctx = CURRENT_CTX[0]
+    if ctx is None:
+        raise Unsupported("phase factor without an active context")
+    return SymC(ctx.uf_apply("cos", [arg]), ctx.uf_apply("sin", [arg]), arg=arg)
+
+
 class Opaque:
     """Value of an uninterpreted sort (tier A): arrays, waves, potentials, detectors..."""
 
@@ -278,6 +289,8 @@ def v_mul(a, b):
         return a
     if isinstance(b, SymC) and concrete(a) and not isinstance(a, (tuple, list)) and norm_number(a) == 1:
         return b
+    if isinstance(a, SymC) and isinstance(b, SymC) and a.arg is not None and b.arg is not None:
+        return phase(v_add(a.arg, b.arg))  # exp(ia) exp(ib) == exp(i(a+b))
     if isinstance(a, SymC) or isinstance(b, SymC):
         a, b = as_complex(a), as_complex(b)
         return SymC(v_sub(v_mul(a.re, b.re), v_mul(a.im, b.im)), v_add(v_mul(a.re, b.im), v_mul(a.im, b.re)))
@@ -382,6 +395,8 @@ def v_pow(a, b, ctx=None):
 
 
 def v_abs(a, ctx=None):
+    if isinstance(a, SymC) and a.arg is not None:
+        return 1  # |exp(i x)| == 1
     if isinstance(a, SymC):
         if ctx is None:
             raise Unsupported("abs of complex without context")
